@@ -25,6 +25,12 @@ PROFILES = {
                    kinds=["ok", "ok", "nil"], slots=["A", "B", "C"], burst=(1, 3), p_bclose=0.18, p_head=0.05),
     "timeout": dict(clients=2, steps=(4, 12), menu=["get", "set", "mget", "del", "ping"],
                     kinds=["ok", "ok", "nil"], slots=["A", "B", "C"], burst=(1, 3), p_expire=0.2, timeout=True, p_owed=0.3),
+    # redirects with a request timeout: a redirected request whose new node stays silent must still time out (C13, C16);
+    # half of the expiries come without a wake-up, so that the timeout scan of an iteration that also read a redirect
+    # finds the re-queued fragment not yet written
+    "redirtimeout": dict(clients=2, steps=(4, 12), menu=["get", "set", "mget", "mget", "del", "ping"],
+                         kinds=["ok", "moved", "ask", "moved", "nil"], slots=["A", "B", "C"], burst=(1, 3), p_expire=0.25, timeout=True,
+                         p_owed=0.4, p_nowake=0.5),
     "churn": dict(clients=3, steps=(5, 14), menu=["get", "get", "mget", "del", "mset", "ping"],
                   kinds=["ok", "ok", "mix"], slots=["A", "A2", "B", "C", "U"], burst=(1, 3), p_cclose=0.12, unowned=True),
     "gate": dict(clients=2, steps=(5, 14), menu=["get", "get", "set", "mget", "ping"],
@@ -34,6 +40,8 @@ PROFILES = {
     # clients that send bytes that are not RESP while their own and other clients' requests are in flight
     "hostile": dict(clients=3, steps=(5, 14), menu=["get", "get", "set", "mget", "del", "del", "mset", "ping", "bad"],
                     kinds=["ok", "ok", "nil"], slots=["A", "A2", "B", "C"], burst=(1, 4)),
+    "redirorder": dict(directed=True),
+    "redirexpire": dict(directed=True, timeout=True),
     "quit": dict(clients=2, steps=(3, 9), menu=["get", "set", "mget", "ping", "quit"],
                  kinds=["ok"], slots=["A", "B"], burst=(1, 3)),
 }
@@ -138,7 +146,8 @@ def gen_scenario(rng, profile, sid):
                 stim.append({"op": "cclose", "c": c})
             elif a == "expire":
                 stim.append({"op": "expire", "count": rng.choice([1, 1, 2])})
-                stim.append({"op": "wake"})
+                if rng.random() >= p.get("p_nowake", 0):
+                    stim.append({"op": "wake"})
         steps.append({"stim": stim})
         for n in nodes:
             # what was queued before this iteration is written by the wake-up of the next one
@@ -169,8 +178,77 @@ def gen_scenario(rng, profile, sid):
     return {"id": sid, "steps": steps}
 
 
+def gen_redirorder(rng, sid):
+    """Directed: several requests of one client for one slot are in flight on the slot's node, which redirects them one
+    at a time while the client sends more for the same slot."""
+    nodes = ["n1", "n2", "n3"]
+    slot = rng.choice(["A", "B", "C"])
+    home = NODE_OF[slot]
+    to = rng.choice([x for x in nodes if x != home])
+    kind = rng.choice(["moved", "moved", "ask"])
+    mk = lambda: {"k": rng.choice(["get", "set", "set"]), "slots": [slot], "args": []}
+    n1, n2 = rng.randint(2, 4), rng.randint(1, 3)
+    first = rng.randint(1, n1 - 1)
+    steps = [{"stim": [{"op": "send", "c": "c1", "reqs": [mk() for _ in range(n1)]}]},
+             {"stim": []},
+             {"stim": [{"op": "answer", "n": home, "kind": kind, "to": to} for _ in range(first)]},
+             {"stim": [{"op": "send", "c": "c1", "reqs": [mk() for _ in range(n2)]}]
+                      + ([{"op": "send", "c": "c2", "reqs": [mk()]}] if rng.random() < 0.3 else [])},
+             {"stim": []},
+             {"stim": [{"op": "answer", "n": home, "kind": rng.choice([kind, kind, "ok"]), "to": to} for _ in range(n1 - first + n2 + 1)]},
+             {"stim": [], "settle": True}]
+    for rnd in range(4):
+        steps.append({"stim": [{"op": "answer", "n": n, "kind": "ok"} for n in nodes for _ in range(n1 + n2 + 2)], "settle": True})
+    for st in steps:
+        st.setdefault("settle", False)
+        st.setdefault("noIter", False)
+        for x in st["stim"]:
+            for k, v in (("c", ""), ("n", ""), ("reqs", []), ("hex", ""), ("kind", ""), ("cls", ""), ("to", ""), ("count", 0), ("src", ""), ("text", "")):
+                x.setdefault(k, v)
+    return {"id": sid, "steps": steps}
+
+
+def gen_redirexpire(rng, sid):
+    """Directed: a split request one of whose fragments is redirected in the very iteration whose timeout scan expires a
+    sibling; the re-queued fragment is written one iteration later, when its message has already been answered; then
+    more traffic for the node it was redirected to."""
+    nodes = ["n1", "n2", "n3"]
+    s1, s2 = rng.sample(["A", "B", "C"], 2)
+    h1, h2 = NODE_OF[s1], NODE_OF[s2]
+    to = rng.choice([x for x in nodes if x != h1])
+    tslot = {v: k for k, v in NODE_OF.items() if len(k) == 1}[to]
+    kind = rng.choice(["moved", "ask"])
+    multi = {"k": rng.choice(["mget", "mget", "del", "mset"]), "slots": rng.choice([[s1, s2], [s2, s1], [s1, s2, s1]]), "args": []}
+    pre = [{"k": "get", "slots": [rng.choice(["A", "B", "C"])], "args": []}] if rng.random() < 0.3 else []
+    later = [{"k": rng.choice(["get", "set"]), "slots": [tslot], "args": []} for _ in range(rng.randint(1, 3))]
+    steps = [{"stim": [{"op": "send", "c": "c1", "reqs": pre + [multi]}]},
+             {"stim": []},
+             {"stim": [{"op": "answer", "n": h1, "kind": kind, "to": to}] * (len(pre) + 1 if pre and NODE_OF[pre[0]["slots"][0]] == h1 else 1)
+                      + [{"op": "expire", "count": rng.choice([1, 2, 2, 3])}] + ([{"op": "wake"}] if rng.random() < 0.25 else [])},
+             {"stim": []},
+             {"stim": [{"op": "send", "c": rng.choice(["c1", "c1", "c2"]), "reqs": later}]},
+             {"stim": []},
+             {"stim": [{"op": "answer", "n": to, "kind": "ok"} for _ in range(len(later) + 2)]},
+             {"stim": [], "settle": True}]
+    for rnd in range(3):
+        steps.append({"stim": [{"op": "answer", "n": n, "kind": "ok"} for n in nodes for _ in range(5)], "settle": True})
+    for st in steps:
+        st.setdefault("settle", False)
+        st.setdefault("noIter", False)
+        st["stim"] = [dict(x) for x in st["stim"]]
+        for x in st["stim"]:
+            for k, v in (("c", ""), ("n", ""), ("reqs", []), ("hex", ""), ("kind", ""), ("cls", ""), ("to", ""), ("count", 0), ("src", ""), ("text", "")):
+                x.setdefault(k, v)
+    return {"id": sid, "steps": steps}
+
+
+DIRECTED = {"redirorder": gen_redirorder, "redirexpire": gen_redirexpire}
+
+
 def gen_many(seed, profile, n):
     rng = random.Random("%s/%s" % (seed, profile))
+    if profile in DIRECTED:
+        return [DIRECTED[profile](rng, "%s-%d-%d" % (profile, seed, i)) for i in range(n)]
     return [gen_scenario(rng, profile, "%s-%d-%d" % (profile, seed, i)) for i in range(n)]
 
 
